@@ -446,6 +446,9 @@ func c08(r *hx.Run) {
 	}
 	rnd := rand.New(rand.NewSource(r.Seed))
 	points := []string{"cacheable.enter", "cacheable.released", "cacheable.saved", "hfp.enter", "hfp.released", "hfp.saved", "get.loaded", "purge.removed"}
+	if r.Thorough() {
+		points = append(points, "cache.fetched", "get.woken", "get.registered", "proxy.afterUpstream", "disp.got")
+	}
 	var cases []c08Case
 	id := 0
 	reps := r.Pick(1, 12)
